@@ -105,7 +105,9 @@ func openDB(r *simcore.Run, root string, cfg stCfg, mod func(*database.Options))
 
 type c06Op struct {
 	Client   int
-	Kind     string // set | mset | pset | del | get | scan | hist
+	Kind     string // set | mset | pset | del | get | getat | getrev | getall | scan | hist | ref | getref | zadd | zscan
+	Score    int    // zadd
+	Rev      int64  // getrev
 	Keys     []string
 	Vals     []string
 	Via      string // mset: "" (Set) | execall
@@ -155,7 +157,20 @@ func c06Body(r *simcore.Run) {
 				op := &c06Op{Client: c}
 				k := c06Keys[r.Intn(len(c06Keys))]
 				nv := func() string { valSeq++; return fmt.Sprintf("v%d", valSeq) }
-				switch w := r.Intn(20); {
+				switch w := r.Intn(24); {
+				case w == 20:
+					// a reference to k under the fixed reference key "r"+k
+					op.Kind, op.Keys = "ref", []string{k}
+				case w == 21:
+					if r.Bool() {
+						op.Kind, op.Keys = "getref", []string{k}
+					} else {
+						op.Kind, op.Keys, op.Rev = "getrev", []string{k}, int64(r.Pick(1, 2, 3, -1, -2))
+					}
+				case w == 22:
+					op.Kind, op.Keys, op.Score = "zadd", []string{k}, 1+r.Intn(3)
+				case w == 23:
+					op.Kind = "zscan"
 				case w < 5:
 					op.Kind, op.Keys, op.Vals = "set", []string{k}, []string{nv()}
 				case w < 7:
@@ -321,8 +336,52 @@ func c06Exec(ctx context.Context, d database.DB, op *c06Op) {
 			return
 		}
 		for _, e := range es.Entries {
-			op.Got = append(op.Got, string(e.Key)+"="+string(e.Value))
+			if e.ReferencedBy != nil {
+				op.Got = append(op.Got, string(e.ReferencedBy.Key)+"->"+string(e.Key)+"="+string(e.Value))
+			} else {
+				op.Got = append(op.Got, string(e.Key)+"="+string(e.Value))
+			}
 			op.GotTx = append(op.GotTx, e.Tx)
+		}
+	case "ref":
+		hdr, err := d.SetReference(ctx, &schema.ReferenceRequest{Key: []byte("r" + op.Keys[0]), ReferencedKey: []byte(op.Keys[0])})
+		if err != nil {
+			fail(err)
+			return
+		}
+		op.TxID = hdr.Id
+	case "getref":
+		e, err := d.Get(ctx, &schema.KeyRequest{Key: []byte("r" + op.Keys[0])})
+		if err != nil {
+			fail(err)
+			return
+		}
+		op.Got, op.TxID = []string{string(e.Key) + "=" + string(e.Value)}, e.Tx
+		if e.ReferencedBy == nil {
+			op.Got[0] = "(no reference) " + op.Got[0]
+		}
+	case "getrev":
+		e, err := d.Get(ctx, &schema.KeyRequest{Key: []byte(op.Keys[0]), AtRevision: op.Rev})
+		if err != nil {
+			fail(err)
+			return
+		}
+		op.Got, op.TxID = []string{string(e.Value)}, e.Tx
+	case "zadd":
+		hdr, err := d.ZAdd(ctx, &schema.ZAddRequest{Set: []byte("z"), Score: float64(op.Score), Key: []byte(op.Keys[0])})
+		if err != nil {
+			fail(err)
+			return
+		}
+		op.TxID = hdr.Id
+	case "zscan":
+		es, err := d.ZScan(ctx, &schema.ZScanRequest{Set: []byte("z")})
+		if err != nil {
+			fail(err)
+			return
+		}
+		for _, e := range es.Entries {
+			op.Got = append(op.Got, fmt.Sprintf("%d:%s=%s", int(e.Score), e.Key, e.Entry.GetValue()))
 		}
 	case "hist":
 		es, err := d.History(ctx, &schema.HistoryRequest{Key: []byte(op.Keys[0])})
@@ -352,7 +411,7 @@ func c06Check(r *simcore.Run, ops []*c06Op) {
 	byID := map[uint64]*c06Op{}
 	var maxID uint64
 	for _, op := range ops {
-		if op.TxID != 0 && (op.Kind == "set" || op.Kind == "mset" || op.Kind == "pset" || op.Kind == "del") {
+		if op.TxID != 0 && (op.Kind == "set" || op.Kind == "mset" || op.Kind == "pset" || op.Kind == "del" || op.Kind == "ref" || op.Kind == "zadd") {
 			if prev, dup := byID[op.TxID]; dup {
 				r.Violation("id-reassigned", "", "two writes returned the same transaction id %d: %+v and %+v", op.TxID, prev, op)
 			}
@@ -374,10 +433,19 @@ func c06Check(r *simcore.Run, ops []*c06Op) {
 		}
 		if op := byID[id]; op != nil {
 			for i, k := range op.Keys {
+				switch op.Kind {
+				case "ref":
+					k = "r:" + k // model key of the reference to k
+				case "zadd":
+					k = fmt.Sprintf("z:%d:%s", op.Score, k) // model key of a sorted-set member
+				}
 				nv := append([]c06Ver(nil), next[k]...)
-				if op.Kind == "del" {
+				switch op.Kind {
+				case "del":
 					nv = append(nv, c06Ver{Tx: id, Deleted: true})
-				} else {
+				case "ref", "zadd":
+					nv = append(nv, c06Ver{Tx: id})
+				default:
 					nv = append(nv, c06Ver{Val: op.Vals[i], Tx: id})
 				}
 				next[k] = nv
@@ -426,6 +494,14 @@ func c06Check(r *simcore.Run, ops []*c06Op) {
 	}
 	for _, op := range ops {
 		lo, hi := bounds(op)
+		switch {
+		case (op.Kind == "ref" || op.Kind == "zadd") && op.TxID != 0:
+			r.Probe("c06-" + op.Kind + "-applied")
+		case (op.Kind == "getref" || op.Kind == "getrev") && len(op.Got) > 0:
+			r.Probe("c06-" + op.Kind + "-found")
+		case op.Kind == "zscan" && len(op.Got) > 0:
+			r.Probe("c06-zscan-nonempty")
+		}
 		switch op.Kind {
 		case "get":
 			ok := false
@@ -492,10 +568,92 @@ func c06Check(r *simcore.Run, ops []*c06Op) {
 					}
 				}
 				sort.Strings(want)
+				// references follow ("ra" > "d"), resolved within the same state
+				for _, k := range c06Keys {
+					if v, found := live(states[s], k); found && len(states[s]["r:"+k]) > 0 {
+						want = append(want, "r"+k+"->"+k+"="+v.Val)
+					}
+				}
 				ok = strings.Join(want, ",") == strings.Join(op.Got, ",")
 			}
 			if !ok {
 				c06Viol(r, "not-linearizable", "client %d: Scan returned %v which matches no state between tx %d and tx %d\n  history: %s", op.Client, op.Got, lo, hi, c06Dump(ops))
+			}
+		case "getref":
+			if op.Err != "" {
+				r.Violation("read-error", "", "Get(%q) failed: %s", "r"+op.Keys[0], op.Err)
+			}
+			ok := false
+			for s := lo; s <= hi && !ok; s++ {
+				v, found := live(states[s], op.Keys[0])
+				found = found && len(states[s]["r:"+op.Keys[0]]) > 0
+				if op.NotFound {
+					ok = !found
+				} else {
+					ok = found && op.Got[0] == op.Keys[0]+"="+v.Val && v.Tx == op.TxID
+				}
+			}
+			if !ok {
+				c06Viol(r, "not-linearizable", "client %d: Get of the reference to %q returned (%v, tx %d, notfound=%v) which matches no state between tx %d and tx %d\n  history: %s", op.Client, op.Keys[0], op.Got, op.TxID, op.NotFound, lo, hi, c06Dump(ops))
+			}
+		case "getrev":
+			missing := op.NotFound || strings.Contains(op.Err, "revision")
+			if op.Err != "" && !missing {
+				r.Violation("read-error", "", "Get(%q, revision %d) failed: %s", op.Keys[0], op.Rev, op.Err)
+			}
+			ok := false
+			for s := lo; s <= hi && !ok; s++ {
+				vs := states[s][op.Keys[0]]
+				idx := int(op.Rev) - 1
+				if op.Rev < 0 {
+					idx = len(vs) - 1 + int(op.Rev)
+				}
+				switch {
+				case idx < 0 || idx >= len(vs) || vs[idx].Deleted:
+					ok = missing
+				default:
+					ok = !missing && op.Got[0] == vs[idx].Val && op.TxID == vs[idx].Tx
+				}
+			}
+			if !ok {
+				c06Viol(r, "not-linearizable", "client %d: Get(%q, revision %d) returned (%v, tx %d, notfound=%v, err %q) which matches no state between tx %d and tx %d\n  history: %s", op.Client, op.Keys[0], op.Rev, op.Got, op.TxID, op.NotFound, op.Err, lo, hi, c06Dump(ops))
+			}
+		case "zscan":
+			if op.Err != "" {
+				r.Violation("read-error", "", "ZScan failed: %s", op.Err)
+			}
+			ok := false
+			for s := lo; s <= hi && !ok; s++ {
+				var want []string
+				for score := 1; score <= 3; score++ {
+					for _, k := range c06Keys {
+						if v, found := live(states[s], k); found && len(states[s][fmt.Sprintf("z:%d:%s", score, k)]) > 0 {
+							want = append(want, fmt.Sprintf("%d:%s=%s", score, k, v.Val))
+						}
+					}
+				}
+				ok = strings.Join(want, ",") == strings.Join(op.Got, ",")
+			}
+			if !ok {
+				c06Viol(r, "not-linearizable", "client %d: ZScan returned %v which matches no state between tx %d and tx %d\n  history: %s", op.Client, op.Got, lo, hi, c06Dump(ops))
+			}
+		case "ref", "zadd":
+			// the referenced key must exist; SetReference and ZAdd exclude every other request while they run
+			if op.TxID != 0 {
+				if _, found := live(states[op.TxID-1], op.Keys[0]); !found {
+					c06Viol(r, "precondition", "client %d: %s of key %q was applied as tx %d although the key does not exist in the state after tx %d\n  history: %s", op.Client, op.Kind, op.Keys[0], op.TxID, op.TxID-1, c06Dump(ops))
+				}
+			} else if op.NotFound || strings.Contains(op.Err, "not found") {
+				ok := false
+				for s := lo; s <= hi && !ok; s++ {
+					_, found := live(states[s], op.Keys[0])
+					ok = !found
+				}
+				if !ok {
+					c06Viol(r, "precondition", "client %d: %s of key %q was refused as not found although the key exists in every state between tx %d and tx %d\n  history: %s", op.Client, op.Kind, op.Keys[0], lo, hi, c06Dump(ops))
+				}
+			} else if !strings.Contains(op.Err, "limit exceeded") {
+				r.Violation("write-error", "", "%s %v failed: %s", op.Kind, op.Keys, op.Err)
 			}
 		case "hist":
 			if op.NotFound {
